@@ -67,7 +67,7 @@ def gen_case(rng, stats, extra):
     with driver.Scratch('c17') as scratch:
         if x < extra.get('x_share', 0.0):
             from .. import xgen, xlang
-            prog, inp = xgen.gen_program(rng, extra['tier'])
+            prog, inp, _files = xgen.gen_program(rng, extra['tier'])
             src = xlang.p_prog(prog)
             verdict, why, st = x_case(src, scratch)
             fam = 'x'
